@@ -1916,7 +1916,14 @@ def predicate_atoms(sw, fn=None, rich=False, only=None):
             elif x[2]:
                 leaf(x[2][0])
         elif x[0] == 'field':
-            out.add('field:' + x[3])
+            if str(x[3]).isdigit() and str(x[2]).startswith(('std::', 'core::')):
+                # the payload of a std enum (`Continue(v)` after `?`, `Some(v)`, `Ok(v)`, `Ready(v)`): name what was matched
+                n0 = len(out)
+                leaf(x[1])
+                if len(out) == n0:
+                    out.add('field:' + x[3])
+            else:
+                out.add('field:' + x[3])
         elif x[0] in ('bin',):
             leaf(x[2])
             leaf(x[3])
